@@ -6,15 +6,16 @@ CONSTANTS
   HWFallback = FALSE
   ElectAlive = FALSE
   ElectDown = TRUE
-  MaxMsgs = 3
-  MaxElect = 2
-  MaxCrash = 2
+  MaxMsgs = 2
+  MaxElect = 1
+  MaxCrash = 0
   MaxIsrOps = 2
-  MaxRejects = 0
-  Policies = {"ALL"}
+  MaxRejects = 1
+  Policies = {"ALL", "LEADER", "NONE"}
   UseCheckpoint = FALSE
-  Batch = 1
+  Batch = 2
   IgnoreTaints = FALSE
-INVARIANTS NoBad_EpochConvention
+INVARIANTS Inv_CommittedSurvives Inv_NoDivergence Inv_Nacked Inv_Struct
+PROPERTIES AcksOK HWMono
 VIEW MCView
 CHECK_DEADLOCK FALSE
